@@ -53,7 +53,7 @@ let () =
   read_lines stdin (fun line ->
     match split_on '\t' line with
     | id :: "S" :: eng :: script :: _ ->
-      let kind = (if eng = "pebble" || eng = "rocksdb" then KBounded else if eng = "mem" then KRadix else KPlain) in
+      let kind = (if eng = "rocksdb" then KPrefix else if eng = "pebble" then KBounded else if eng = "mem" then KRadix else KPlain) in
       let steps = List.map step_of (split_on ';' script) in
       let rs = run_script kind db_empty steps in
       let outs = List.filter_map show rs in
